@@ -1356,6 +1356,8 @@ def normalise(project, path=PINNED):
                 if not progress:
                     progress += split_ret_tuples(fi.node)
                 if not progress:
+                    progress += split_chain_loops(fi.node, rec_names | _params(fi.node))
+                if not progress:
                     progress += collapse_copy_in_out(fi.node, rec_names | _params(fi.node))
                 if not progress:
                     progress += split_conditional_addend(fi.node, rec_names | _params(fi.node))
@@ -2182,6 +2184,38 @@ def split_conditional_addend(fn, rec_names):
                     done[0] += 1
                     i += 2
                     continue
+            i += 1
+    return done[0]
+
+
+def split_chain_loops(fn, rec_names):
+    """`for a in chain(X, Y): BODY` -> `for a in X: BODY` / `for a_2 in Y: BODY` (itertools.chain over separate
+    collections; BODY without break): the inverse of merging two copy-pasted loops."""
+    import copy
+
+    done = [0]
+    for _owner, blk in list(_blocks(fn)):
+        i = 0
+        while i < len(blk):
+            st = blk[i]
+            if isinstance(st, ast.For) and not st.orelse and isinstance(st.iter, ast.Call) and ((isinstance(st.iter.func, ast.Name) and st.iter.func.id == "chain") or (isinstance(st.iter.func, ast.Attribute) and st.iter.func.attr == "chain")) and len(st.iter.args) >= 2 and not st.iter.keywords and isinstance(st.target, ast.Name) and st.target.id not in rec_names and not any(isinstance(x, ast.Break) for b_ in st.body for x in ast.walk(b_)) and not any(isinstance(a, ast.Starred) for a in st.iter.args):
+                new = []
+                for k, arg in enumerate(st.iter.args):
+                    var = st.target.id if k == 0 else f"{st.target.id}_c{k + 1}"
+
+                    class R(ast.NodeTransformer):
+                        def visit_Name(self, n):
+                            return ast.copy_location(ast.Name(id=var, ctx=n.ctx), n) if n.id == st.target.id else n
+
+                    body = [R().visit(copy.deepcopy(b_)) for b_ in st.body]
+                    lp = ast.For(target=ast.Name(id=var, ctx=ast.Store()), iter=copy.deepcopy(arg), body=body, orelse=[], type_comment=None)
+                    ast.copy_location(lp, st)
+                    ast.fix_missing_locations(lp)
+                    new.append(lp)
+                blk[i : i + 1] = new
+                done[0] += 1
+                i += len(new)
+                continue
             i += 1
     return done[0]
 
